@@ -24,7 +24,9 @@ styles -- the forced support flags, as in impl_c06.py).
 
 What the SCREEN receives is what arrives on the master: draw()'s writes, the query requests (which
 draw nothing: recognised byte for byte and taken out, with their positions) and WHATEVER THE TTY'S
-LINE DISCIPLINE ECHOES of the replies.  Result per case: "screen" (the master stream without the
+LINE DISCIPLINE ECHOES of the replies.  With "tty": false standard output is a pipe (the active
+terminal is still there, through standard input / error, and is still asked): "out" is what the pipe
+received and "term" what the terminal's screen received (nothing, if the property holds).  Result per case: "screen" (the master stream without the
 recognised requests), "exchanges" [{"names", "pos" / "cpos" (offset in "screen", bytes / characters), "reply", "when", "pieces":
 [[point, bytes, ECHO flag of the tty at that moment]], "echo_at_send": ECHO flag when the request was seen}], "events" (the
 termios calls seen), + the keys of impl_c06.py's results ("frames", "size", "raised", ...).
@@ -237,7 +239,7 @@ def child_old(case):
     return res
 
 
-def child_main(case, slave_name, evt_w, ack_r, res_w):
+def child_main(case, slave_name, evt_w, ack_r, res_w, out_w):
     """never returns"""
     try:
         os.setsid()
@@ -246,7 +248,14 @@ def child_main(case, slave_name, evt_w, ack_r, res_w):
             os.dup2(fd, t)
         if fd not in (0, 1, 2, utils._tty_fd):
             os.close(fd)
-        out = io.TextIOWrapper(io.FileIO(1, "w", closefd=False), encoding="utf-8", newline="", line_buffering=True)
+        if out_w is not None:
+            # standard output redirected (a pipe, block-buffered as Python does it): the active
+            # terminal -- standard input / error -- is still there and is still asked
+            os.dup2(out_w, 1)
+            os.close(out_w)
+            out = io.TextIOWrapper(io.BufferedWriter(io.FileIO(1, "w", closefd=False)), encoding="utf-8", newline="")
+        else:
+            out = io.TextIOWrapper(io.FileIO(1, "w", closefd=False), encoding="utf-8", newline="", line_buffering=True)
         err = io.TextIOWrapper(io.FileIO(2, "w", closefd=False), encoding="utf-8", newline="", line_buffering=True)
         sys.stdout = sys.__stdout__ = out
         sys.stderr = sys.__stderr__ = err
@@ -361,14 +370,18 @@ def play(case):
     evt_r, evt_w = os.pipe()
     ack_r, ack_w = os.pipe()
     res_r, res_w = os.pipe()
+    redirected = not case.get("tty", True)
+    out_r, out_w = os.pipe() if redirected else (None, None)
     pid = os.fork()
     if pid == 0:
-        for fd in (master, evt_r, ack_w, res_r):
+        for fd in (master, evt_r, ack_w, res_r) + ((out_r,) if redirected else ()):
             os.close(fd)
-        child_main(case, slave_name, evt_w, ack_r, res_w)
-    for fd in (evt_w, ack_r, res_w):
+        child_main(case, slave_name, evt_w, ack_r, res_w, out_w)
+    for fd in (evt_w, ack_r, res_w) + ((out_w,) if redirected else ()):
         os.close(fd)
     set_nonblock(master)
+    piped = bytearray()
+    out_open = redirected
 
     profile = {k: (None if v is None else bytes(v)) for k, v in io_spec["profile"].items()}
     whens = io_spec.get("when", ["window"])
@@ -468,8 +481,14 @@ def play(case):
         if time.monotonic() > deadline:
             infra = "the case did not finish within %d s" % CASE_CAP
             break
-        rl = [fd for fd, ok in ((master, master_open), (evt_r, True), (res_r, res_open)) if ok]
+        rl = [fd for fd, ok in ((master, master_open), (evt_r, True), (res_r, res_open), (out_r, out_open)) if ok]
         ready = select.select(rl, [], [], 0.5)[0]
+        if out_open and out_r in ready:
+            chunk = os.read(out_r, 1 << 16)
+            if chunk:
+                piped.extend(chunk)
+            else:
+                out_open = False
         if master in ready or evt_r in ready:
             drain_master()
             look_for_requests()
@@ -510,6 +529,11 @@ def play(case):
                 pass
             pid = None
             drain_master()
+            while out_open:
+                chunk = os.read(out_r, 1 << 16)
+                if not chunk:
+                    out_open = False
+                piped.extend(chunk)
             break
     if pid is not None:
         try:
@@ -517,7 +541,7 @@ def play(case):
             os.waitpid(pid, 0)
         except (ProcessLookupError, ChildProcessError):
             pass
-    for fd in (master, slave, evt_r, ack_w, res_r):
+    for fd in (master, slave, evt_r, ack_w, res_r) + ((out_r,) if redirected else ()):
         try:
             os.close(fd)
         except OSError:
@@ -539,6 +563,11 @@ def play(case):
     res["n_requests_in_stream"] = len(reqs)
     res["exchanges"] = exchanges
     res["events"] = "".join(events)
+    if redirected:
+        # what the TERMINAL received (nothing but the requests, if the property holds) apart from
+        # what standard output -- the pipe -- received
+        res["term"] = screen.decode("utf-8", "replace")
+        screen = bytes(piped)
     try:
         res["out"] = screen.decode("utf-8")
     except UnicodeDecodeError:
